@@ -181,6 +181,27 @@ func keysFan(l int) []string {
 	return out
 }
 
+// keysGrid: the first n two-byte keys (x,y), w values of y per x: label count = n + ceil(n/w), swept over n so that
+// the sizes of the trie's bit vectors pass through every value around 512 and 1024 (their rank tables have one entry
+// per 512 bits)
+func keysGrid(w, n int) []string {
+	out := make([]string, 0, n)
+	for i := 0; i < n; i++ {
+		out = append(out, string([]byte{byte(1 + i/w), byte('!' + i%w)}))
+	}
+	return out
+}
+
+// keysGrid3: the first n three-byte keys (x,y,z), two z per (x,y), 32 y per x: node count = 1 + #x + #(x,y), swept
+// through 512
+func keysGrid3(n int) []string {
+	out := make([]string, 0, n)
+	for i := 0; i < n; i++ {
+		out = append(out, string([]byte{byte(1 + i/64), byte(1 + (i/2)%32), byte('a' + i%2)}))
+	}
+	return out
+}
+
 // n sequential keys "k0","k1",...: many keys are proper prefixes of others ("k1" < "k10" < "k100")
 func keysSeq(n int) []string {
 	out := make([]string, n)
@@ -241,6 +262,12 @@ func (d caseDesc) materialise() (keys []string, vals []uint32) {
 			keys = keysSeq(d.N)
 		case "fan":
 			keys = keysFan(d.N)
+		case "grid31":
+			keys = keysGrid(31, d.N)
+		case "grid29":
+			keys = keysGrid(29, d.N)
+		case "grid3":
+			keys = keysGrid3(d.N)
 		default:
 			panic("harness: unknown large set " + d.Name)
 		}
